@@ -28,7 +28,8 @@ RULE = (
     "add_success_fields, log_message, Action.log, Message.log/new/write, MessageType.log, write_traceback, log_call, "
     "serialize_task_id, continue_task, preserve_context) returns normally or raises exactly the object the program raised; "
     "log_call / run return values are the same object. Failures are bucketed by (call, exception type, innermost eliot "
-    "frame). Non-trivial: a fault or hostile value that hits an end message or a failure report, or >= 2 simultaneous fault "
+    "frame). Facet handover: logging threads race (line-level schedules, generated and every single preemption) with "
+    "the first add_destinations of destinations that raise: no logging call may raise. Non-trivial: a fault or hostile value that hits an end message or a failure report, or >= 2 simultaneous fault "
     "kinds. Distinct = canonical JSON of the case."
 )
 ASSUMPTIONS = [
@@ -169,4 +170,67 @@ def strategy():
     )
 
 
-FACETS = [Facet("hostile", strategy, check, classify, quick=2000, thorough=60000)]
+# --------------------------------------------------------------- hand-over
+
+
+def check_handover(case):
+    """Logging threads race with the first add() of destinations that raise: no logging call may raise."""
+    from .c12 import run_handover
+    from ..core import HarnessError
+
+    def factory(i, lst):
+        mask = set(case["dest_masks"][i % len(case["dest_masks"])])
+        state = {"calls": 0}
+
+        def dest(message):
+            k = state["calls"]
+            state["calls"] += 1
+            lst.append(dict(message))
+            if k in mask or -1 in mask:
+                raise OSError("no space left on device (call %d)" % k)
+
+        return dest
+
+    s, received, logged = run_handover(case, dest_factory=factory)
+    for wid, e in s.errors.items():
+        if isinstance(e, HarnessError):
+            raise e
+        raise Violation("api-raised:handover", "worker %d (logging thread or add) raised %r" % (wid, e))
+    inside = s.switched_inside(("send", "add", "__call__", "stop_buffering", "write"))
+    return {"switch_inside": len(inside), "switches": len(s.switches)}
+
+
+def classify_handover(case, info):
+    return info["switch_inside"] >= 1, ["ndest=%d" % case["ndest"], "switches=%d" % min(info["switches"], 6)]
+
+
+def handover_strategy():
+    from .. import sched
+
+    return st.builds(
+        lambda pre, ndest, masks, plan, loggers: {"pre": pre, "ndest": ndest, "dest_masks": masks, "plan": plan, "loggers": loggers},
+        st.integers(0, 2),
+        st.integers(1, 3),
+        st.lists(st.one_of(st.just([-1]), st.lists(st.integers(0, 5), max_size=3)), min_size=1, max_size=3),
+        sched.plans(max_segments=8, max_steps=25, workers=3),
+        st.lists(st.tuples(st.integers(1, 3), st.integers(0, 1)).map(list), min_size=1, max_size=2),
+    )
+
+
+def handover_enum_runner(mod, facet, tier, seed, shard, nshards, stats):
+    from ..core import enumerate_cases
+    from .. import sched
+
+    cases = []
+    for pre in (0, 1):
+        for plan in sched.single_preemption_plans(2, 40):
+            cases.append({"pre": pre, "ndest": 1, "dest_masks": [[-1]], "plan": plan, "loggers": [[1, 1]]})
+    stats.extra["enumerated_plans"] = len(cases)
+    enumerate_cases(mod, facet, cases, shard, nshards, stats, exhaustive=True)
+
+
+FACETS = [
+    Facet("hostile", strategy, check, classify, quick=2000, thorough=60000),
+    Facet("handover", handover_strategy, check_handover, classify_handover, quick=200, thorough=10000),
+    Facet("handover-enum", None, check_handover, classify_handover, quick=1, thorough=1, runner=handover_enum_runner),
+]
